@@ -802,7 +802,16 @@ bool BlockManager::FlushChainstateBlockFile(int tip_height)
     // but no blocks past the snapshot height have been written yet, so there
     // is no data associated with the chainstate, and it is safe not to flush.
     if (cursor) {
-        return FlushBlockFile(cursor->file_num, /*fFinalize=*/false, /*finalize_undo=*/false);
+        bool success{FlushBlockFile(cursor->file_num, /*fFinalize=*/false, /*finalize_undo=*/false)};
+        // Undo data is also appended to older block files, when blocks stored there are connected
+        // after the cursor has moved on (out-of-order download, reorgs). WriteBlockUndo() only syncs
+        // such a file once its highest block has been connected, but the block index written after
+        // this call already refers to that undo data, so sync it as well.
+        for (const int file_num : m_dirty_fileinfo) {
+            if (file_num == cursor->file_num || m_blockfile_info[file_num].nUndoSize == 0) continue;
+            if (!FlushUndoFile(file_num, /*finalize=*/false)) success = false;
+        }
+        return success;
     }
     // No need to log warnings in this case.
     return true;
